@@ -6,6 +6,7 @@
 //! is judged through `ctx.judge_panic` (so `ctx.policy` decides), and for a
 //! sample of inputs the observation digest is recomputed (a) a second time,
 //! (b) on another thread, (c) on a relocated, differently aligned copy.
+pub mod cmapgen;
 pub mod font;
 pub mod h_core;
 pub mod h_layout;
@@ -121,12 +122,29 @@ fn exec_inner(ctx: &mut Ctx, kind: &'static str, font: &str, mutation: &str, byt
             note_strict_site(ctx, p, what, font, mutation);
         }
     }
+    report_work_alarms(ctx, &obs, &case, bytes);
     record(ctx, &obs, kind, nt_digest);
     if obs.fields >= NONTRIVIAL_FIELDS && obs.tables_ok > 0 {
         ctx.sample_by_kind(kind, json!({"font": font, "mutation": mutation, "fields": obs.fields, "tables_ok": obs.tables_ok, "helper_calls": obs.helper_calls, "digest": format!("{:016x}", obs.d.finish())}));
     }
     if det {
         determinism(ctx, &obs, font, mutation, bytes, spec, &case);
+    }
+}
+
+/// The work monitor's refuting observations: a drained iterator yielded more
+/// items than the ceiling its format allows (work not proportional to the
+/// input). One finding per (helper, ceiling), the input as replay.
+fn report_work_alarms(ctx: &mut Ctx, obs: &Obs, case: &Value, bytes: &[u8]) {
+    for a in &obs.work_alarms {
+        ctx.count("work_bound_alarms", 1);
+        let sig = format!("work-bound:{}:{}", a.helper, a.ceiling_expr);
+        ctx.violation(
+            &sig,
+            json!({"what": "iterator yielded more items than the ceiling its format allows", "helper": a.helper, "ceiling_expr": a.ceiling_expr,
+                   "ceiling": a.ceiling, "yielded_at_least": a.yielded, "still_yielding_when_stopped": a.stopped_by_cap, "input_len": bytes.len(), "case": case}),
+            Some(bytes),
+        );
     }
 }
 
@@ -154,6 +172,22 @@ fn record(ctx: &mut Ctx, obs: &Obs, _kind: &str, nt_digest: u64) {
     ctx.count("tables_parsed_ok", obs.tables_ok as u64);
     if obs.budget_hit {
         ctx.count("field_budget_hit", 1);
+    }
+    ctx.count("work_iterators_drained_within_ceiling", obs.work_checked);
+    ctx.count("work_iterators_take_only", obs.work_unchecked);
+    ctx.count("work_items_yielded", obs.work_items);
+    for (h, (iters, items)) in &obs.work_by_helper {
+        ctx.count(&format!("work_iterators:{}", h), *iters);
+        ctx.count(&format!("work_items:{}", h), *items);
+    }
+    if obs.work_checked > 0 {
+        let bucket = match obs.work_max_permille {
+            0..=100 => "<=10%",
+            101..=500 => "<=50%",
+            501..=999 => "<100%",
+            _ => "=100%",
+        };
+        ctx.count(&format!("work_peak_yield_vs_ceiling:{}", bucket), 1);
     }
     for (i, n) in obs.errs.iter().enumerate() {
         if *n > 0 {
@@ -422,6 +456,7 @@ fn miri_slice(ctx: &mut Ctx, _args: &Args) {
             for (what, p) in &first.panics {
                 ctx.judge_panic(p, what, case.clone(), Some(&bytes));
             }
+            report_work_alarms(ctx, &first, &case, &bytes);
             record(ctx, &first, kind, nt(&id, "miri", &mutation));
             if first.fields >= NONTRIVIAL_FIELDS && first.tables_ok > 0 {
                 ctx.sample_by_kind(kind, json!({"font": id, "mutation": mutation, "fields": first.fields, "tables_ok": first.tables_ok, "helper_calls": first.helper_calls, "digest": format!("{:016x}", first.d.finish()), "placements": "misalignments 0..3 (quick tier: 0..3 for the first pristine font, else 0 and one of 1..3)"}));
@@ -455,7 +490,8 @@ pub fn workload(ctx: &mut Ctx, args: &Args) {
     ctx.assumptions = vec![
         "64-bit target (usize arithmetic on u32 font values cannot overflow); 32-bit behaviour is not observed".into(),
         "COLR PaintId values embed the address of the data by design (cycle detection); they are observed relative to each other, not absolutely".into(),
-        "lazily unbounded iterators (Cmap12::iter without limits, CollectionRef::iter with numFonts = 2^32-1) are consumed through take(N)".into(),
+        "lazily unbounded iterators (Cmap12::iter without limits: up to 2^32 pairs by design; Cmap12::iter_with_limits with max_char = u32::MAX; CollectionRef::iter / FileRef::fonts with numFonts = 2^32-1; Charset::iter with num_glyphs = 2^32-1) are consumed through take(N)".into(),
+        "work monitor: an iterator whose item count has a format-defined ceiling is drained to its end (first N items digested, the rest counted; hard cap 4 x ceiling + 1024) and must not yield more than the ceiling; ceilings above 2^21 items, and iterators reached after a walk has drained 6M (mutant) / 64M (pristine) items, are consumed through take(N) only (counter work_iterators_take_only). Only yielded items are counted: internal steps that yield nothing (e.g. Cmap4 codes without a glyph) are seen by the cpu-time bound only".into(),
         "stack overflow / abort are attributed by the driver through trace mode, not by this crate".into(),
     ];
     if cfg!(miri) || args.profile == "miri" {
@@ -477,6 +513,7 @@ pub fn workload(ctx: &mut Ctx, args: &Args) {
     random_mutants(ctx, &mut r, &fonts, seed);
     splices(ctx, &mut r, &fonts, seed);
     payload_mutants(ctx, &mut r, &fonts, seed);
+    cmap_directed(ctx, &mut r, &fonts, seed);
 
     ctx.extra.insert("fonts_in_corpus".into(), json!(fonts.len()));
     ctx.extra.insert("work_items_enumerated".into(), json!(r.item));
@@ -758,6 +795,78 @@ fn payload_mutants(ctx: &mut Ctx, r: &mut Runner, fonts: &[CorpusFont], seed: u6
                 exec(ctx, r, "inputs:payload-mutant", &id, &m, &payload, &spec, nt(&id, "pm", &m));
                 patch.undo(&mut payload);
             }
+        }
+    }
+}
+
+/// G10: directed cmap format 4 / 12 / 13 segment / group edits of the corpus
+/// cmap tables (swap, backwards, duplicate, overlap, end = max, wide / low
+/// alternation) and synthetic subtables built from a vocabulary of boundary
+/// ranges; every mutant is read as a table payload and inside a font.
+fn cmap_directed(ctx: &mut Ctx, r: &mut Runner, fonts: &[CorpusFont], seed: u64) {
+    let per_font = ctx.budget(24, 240);
+    let mut base: Option<&CorpusFont> = None;
+    for (fi, f) in fonts.iter().enumerate() {
+        if f.data.len() > 64 * 1024 {
+            continue;
+        }
+        let mut buf = f.data.to_vec();
+        let Some(rec) = dir_of(&buf).into_iter().find(|r| &r.tag == b"cmap") else { continue };
+        let range = rec.range(buf.len());
+        if cmapgen::subtables(&buf[range.clone()]).is_empty() {
+            continue;
+        }
+        // the smallest font with a cmap (and a maxp for the glyph count) carries the synthetic subtables
+        if dir_of(&buf).iter().any(|r| &r.tag == b"maxp") && base.map(|b| b.data.len() > f.data.len()).unwrap_or(true) {
+            base = Some(f);
+        }
+        let id = f.id();
+        let real = RealArgs::of(&buf);
+        for it in 0..per_font {
+            r.item += 1;
+            if !ctx.mine(r.item) {
+                continue;
+            }
+            let mut rng = Rng::derive(seed, "c01-cmap-edit", ((fi as u64) << 32) | it as u64);
+            let mut patch = Patcher::new();
+            let mut kinds = vec![];
+            let (head, tail) = buf.split_at_mut(range.start);
+            let _ = head;
+            let payload = &mut tail[..range.len()];
+            let Some(desc) = cmapgen::edit(payload, &mut patch, &mut rng, &mut kinds) else { continue };
+            for k in &kinds {
+                ctx.count(&format!("cmap_edit_kind:{}", k), 1);
+            }
+            let m = format!("cmap-edit#{}:{}", it, desc);
+            let edited = payload.to_vec();
+            patch.undo(payload);
+            // in the font (limits from the font's maxp) and as a payload
+            let mut patch = Patcher::new();
+            patch.set(&mut buf, range.start, &edited);
+            exec(ctx, r, "inputs:cmap-directed-file", &id, &m, &buf, &Spec::File(WalkCfg::mutant(40_000, Some(*b"cmap"))), nt(&id, "cdf", &m));
+            patch.undo(&mut buf);
+            let spec = Spec::Payload { tag: *b"cmap", real, cross: false, cfg: WalkCfg::mutant(40_000, None) };
+            exec(ctx, r, "inputs:cmap-directed-payload", &id, &m, &edited, &spec, nt(&id, "cdp", &m));
+        }
+    }
+    let n_synth = ctx.budget(600, 6000);
+    let real = base.map(|b| RealArgs::of(&b.data)).unwrap_or_default();
+    let base_id = base.map(|b| b.id()).unwrap_or_else(|| "synthetic".into());
+    for it in 0..n_synth {
+        r.item += 1;
+        if !ctx.mine(r.item) {
+            continue;
+        }
+        let mut rng = Rng::derive(seed, "c01-cmap-synth", it as u64);
+        let format = *rng.pick(&[4u16, 4, 12, 12, 13]);
+        let (desc, cmap) = cmapgen::synth(&mut rng, format);
+        ctx.count(&format!("cmap_synth_format:{}", format), 1);
+        let m = format!("cmap-synth#{}:{}", it, desc);
+        let spec = Spec::Payload { tag: *b"cmap", real, cross: false, cfg: WalkCfg::mutant(40_000, None) };
+        exec(ctx, r, "inputs:cmap-synth-payload", &base_id, &m, &cmap, &spec, nt(&base_id, "csp", &m));
+        if let Some(b) = base {
+            let font = gen::with_table(&b.data, b"cmap", &cmap);
+            exec(ctx, r, "inputs:cmap-synth-file", &base_id, &m, &font, &Spec::File(WalkCfg::mutant(40_000, Some(*b"cmap"))), nt(&base_id, "csf", &m));
         }
     }
 }
